@@ -242,7 +242,7 @@ package jobcontroller
 //@        && jobtasks.tcErr[old(jobtasks.tcN)] == errclass(result1) && jobtasks.tcTask[old(jobtasks.tcN)] == result0
 //@   ensures [C09] no-request-means-error: jobtasks.tcN == old(jobtasks.tcN) ==> result1 != nil
 //@   ensures [C09] result0 != nil <==> result1 == nil
-//@   ensures [C09] log-append-only: forall i int :: i < old(jobtasks.tcN) ==> jobtasks.tcJob[i] == old(jobtasks.tcJob[i]) && jobtasks.tcRetry[i] == old(jobtasks.tcRetry[i]) && jobtasks.tcOK[i] == old(jobtasks.tcOK[i])
+//@   ensures [C09] log-append-only: forall i int :: i < old(jobtasks.tcN) ==> jobtasks.tcJob[i] == old(jobtasks.tcJob[i]) && jobtasks.tcRetry[i] == old(jobtasks.tcRetry[i]) && jobtasks.tcOK[i] == old(jobtasks.tcOK[i]) && jobtasks.tcIndex[i] == old(jobtasks.tcIndex[i])
 
 //@ pure hasAdmissionError(rj *execution.Job) bool = job.LabelKeyAdmissionErrorMessage in rj.Annotations
 //@ pure createErr(n Int) Int = jobtasks.tcErr[n]
@@ -267,6 +267,10 @@ package jobcontroller
 //@   ensures [C09,C20] other-errors-are-returned: jobtasks.tcN == old(jobtasks.tcN) + 1 && !jobtasks.tcOK[old(jobtasks.tcN)]
 //@        && createErr(old(jobtasks.tcN)) != 409001 && createErr(old(jobtasks.tcN)) != 900 ==> result2 != nil && result0 == rj && len(result1) == len(tasks)
 //@   ensures [C09] cached-job-untouched: *rj == old(*rj) && (forall k string :: (k in rj.Annotations) == old(k in rj.Annotations))
+//@   ensures [C08,C09] returns-a-job-and-the-same-or-a-new-task-list: result0 != nil && (samearray(result1, tasks) || fresh(result1))
+//@   ensures [C08,C09] the-request-is-for-this-index-and-retry: jobtasks.tcN == old(jobtasks.tcN) + 1 ==> jobtasks.tcJob[old(jobtasks.tcN)] == rj
+//@        && jobtasks.tcRetry[old(jobtasks.tcN)] == index.Retry && jobtasks.tcIndex[old(jobtasks.tcN)] == index.Parallel
+//@   ensures [C08,C09] log-append-only: forall i int :: i < old(jobtasks.tcN) ==> jobtasks.tcRetry[i] == old(jobtasks.tcRetry[i]) && jobtasks.tcIndex[i] == old(jobtasks.tcIndex[i]) && jobtasks.tcJob[i] == old(jobtasks.tcJob[i])
 
 // ---- status recomputation (C11) ----------------------------------------------------------------------------------------------------
 
@@ -290,3 +294,24 @@ package jobcontroller
 // failed syncs of this reconciler are requeued without limit (C20)
 //@ func Reconciler.MaxRequeues
 //@   ensures [C20] unlimited-requeues: result == -1
+
+// ---- task creation discipline (C08) ---------------------------------------------------------------------------------------------
+// Every task creation request issued by one pass is for an index that is due (nothing unfinished or succeeded occupies
+// it, attempts remain), carries that index's next retry number, and is not issued before the latest finish of the index
+// plus the retry delay; none is issued when the Job has a kill timestamp or an admission error.
+//@ func Reconciler.syncCreateTasks
+//@   tags C08
+//@   requires w != nil && rj != nil
+//@   assumes template-was-defaulted-by-the-mutating-webhook: rj.Spec.Template != nil
+//@   modifies clock, elems(tasks), jobtasks.tcN, jobtasks.tcJob, jobtasks.tcRetry, jobtasks.tcIndex, jobtasks.tcOK, jobtasks.tcErr, jobtasks.tcTask, wakeN, wakeKey, wakeAfter
+//@   loop 1 invariant -1 <= rangeindex && rangeindex < len(indexRequests) && rj != nil && jobtasks.tcN >= old(jobtasks.tcN) && clock >= old(clock) && ns(now) <= clock
+//@   loop 1 invariant samearray(tasks, loopentry(tasks)) || fresh(tasks)
+//@   loop 1 invariant forall i int :: {jobtasks.tcIndex[i]} old(jobtasks.tcN) <= i && i < jobtasks.tcN ==> (exists k int :: 0 <= k && k <= rangeindex && jobtasks.tcIndex[i] == indexRequests[k].ParallelIndex
+//@        && jobtasks.tcRetry[i] == indexRequests[k].RetryIndex && (indexRequests[k].Earliest.IsZero() || ns(indexRequests[k].Earliest) <= ns(now)))
+//@   ensures [C08] no-creation-once-killed-or-refused: (rj.Spec.KillTimestamp != nil || hasAdmissionError(rj)) ==> jobtasks.tcN == old(jobtasks.tcN)
+//@   ensures [C08] only-due-indexes-in-retry-order: forall i int :: {jobtasks.tcIndex[i]} old(jobtasks.tcN) <= i && i < jobtasks.tcN ==>
+//@        parallel.wantsTask(rj, parallel.hashOf(jobtasks.tcIndex[i]))
+//@        && jobtasks.tcRetry[i] == parallel.nextRetry(rj.Status.Tasks, parallel.hashOf(jobtasks.tcIndex[i]), len(rj.Status.Tasks))
+//@   ensures [C08] never-before-the-retry-delay: forall i int :: {jobtasks.tcIndex[i]} old(jobtasks.tcN) <= i && i < jobtasks.tcN ==>
+//@        parallel.latestFin(rj.Status.Tasks, parallel.hashOf(jobtasks.tcIndex[i]), len(rj.Status.Tasks)) + execution.retryDelaySeconds(rj) * 1000000000 <= clock
+//@   ensures [C08] log-append-only: jobtasks.tcN >= old(jobtasks.tcN)
